@@ -9,4 +9,4 @@ python3 tools/extract.py
 (cd lean && lake build kvmodel)
 python3 tools/mk_cert.py
 (cd lean && lake build KikiVerif)
-(cd harness && cargo build --offline)
+(cd harness && cargo build --offline --target-dir "$(pwd)/../.work/harness-target")
